@@ -495,8 +495,17 @@ def unaryOk (cs : Bool) (op : UnOp) (e : Operand) (res : Operand) : Bool :=
     e.lvalue && !e.qual.c && (e.ty.isArith || e.ty.isPtr) && res.ty == e.ty
 
 /-- 6.5.4: cast to void or between scalar types; the result has the named type (unqualified) -/
+def isFloatingT (t : Ty) : Bool :=
+  match t with
+  | .arith a => !isIntegerTy a
+  | _ => false
+
 def castOk (t : Ty) (e : Operand) (res : Operand) : Bool :=
-  (t == .void || (t.isScalar && e.ty.isScalar)) && res.ty == t && (t == .void || res.nullconst == castNullconst t e)
+  (t == .void ||
+    (t.isScalar && e.ty.isScalar &&
+      -- 6.5.4p4: no conversion between pointer and floating types
+      !(t.isPtr && isFloatingT e.ty) && !(isFloatingT t && e.ty.isPtr))) &&
+  res.ty == t && (t == .void || res.nullconst == castNullconst t e)
 
 /-- 6.5.16p3: "the type of an assignment expression is the type the left operand would have after
 lvalue conversion"; not an lvalue -/
@@ -524,5 +533,46 @@ def memberOk (arrow : Bool) (e : Operand) (mty : Ty) (mq : Qual) (res : Operand)
       (mty.isFunc || (match mty with | .arr .. => true | _ => false) ||
         (res.qual == memberQual q mq && res.lvalue == (arrow || e.lvalue)))
   | none => false
+
+end CprocVerif.Spec
+
+namespace CprocVerif.Spec
+open CprocVerif.Types
+
+/-! ## 6.7.3p9: qualified array types
+
+"If the specification of an array type includes any type qualifiers, the element type is
+so-qualified, not the array type."  In the type AST the qualifiers of a referenced/element type are
+stored in the parent node, so `ptr q (arr aq … T)` and `ptr {} (arr (aq ∪ q) … T)` are two spellings
+of the same C type ("pointer to array of q-qualified T").  `normalize` pushes such qualifiers
+down to the innermost element type; C11 compatibility is `Compat` on normal forms. -/
+
+/-- add `q` to the (innermost) element type of an array type -/
+def addElemQual (q : Qual) : Ty → Ty
+  | .arr aq len pq e =>
+    match e with
+    | .arr .. => .arr Qual.none len pq (addElemQual (aq.union q) e)
+    | _ => .arr (aq.union q) len pq e
+  | t => t
+
+mutual
+def normalize : Ty → Ty
+  | .ptr q b =>
+    match normalize b with
+    | .arr aq len pq e => .ptr Qual.none (addElemQual q (.arr aq len pq e))
+    | b' => .ptr q b'
+  | .arr aq len pq e =>
+    match normalize e with
+    | .arr aq' len' pq' e' => .arr Qual.none len pq (addElemQual aq (.arr aq' len' pq' e'))
+    | e' => .arr aq len pq e'
+  | .func q r ps v => .func q (normalize r) (normalizeL ps) v
+  | t => t
+def normalizeL : List Ty → List Ty
+  | [] => []
+  | t :: ts => normalize t :: normalizeL ts
+end
+
+/-- compatibility of the C types the two ASTs denote -/
+def compatibleN (a b : Ty) : Bool := compatible (normalize a) (normalize b)
 
 end CprocVerif.Spec
